@@ -140,6 +140,44 @@ fn open_iter(re: &Regex, spec: &RegexSpec, text: &'static str, start: usize) -> 
 
 // ---------------------------------------------------------------- reference model (C09)
 
+/// Run `f` in model mode: hook counts only (own fuel), no scheduling, no injected
+/// cancel, no site statistics. Err(None) = ran out of fuel, Err(Some(msg)) = panic.
+pub fn model_mode<R>(fuel: u64, f: impl FnOnce() -> R) -> (Result<R, Option<String>>, u64) {
+    let ctx = sched::cur_ctx();
+    let (saved_armed, saved_model, saved_steps, saved_fuel) = match &ctx {
+        Some(c) => (c.armed.get(), c.model.get(), c.model_steps.get(), c.model_fuel.get()),
+        None => (false, false, 0, u64::MAX),
+    };
+    if let Some(c) = &ctx {
+        c.armed.set(false);
+        c.model.set(true);
+        c.model_steps.set(0);
+        c.model_fuel.set(fuel);
+    }
+    let was_in_op = IN_OP.with(|c| c.replace(true));
+    let r = catch_unwind(AssertUnwindSafe(f));
+    IN_OP.with(|c| c.set(was_in_op));
+    let mut steps = 0;
+    if let Some(c) = &ctx {
+        steps = c.model_steps.get();
+        c.model.set(saved_model);
+        c.armed.set(saved_armed);
+        c.model_steps.set(saved_steps + steps);
+        c.model_fuel.set(saved_fuel);
+    }
+    match r {
+        Ok(v) => (Ok(v), steps),
+        Err(p) => {
+            if p.is::<SimCancel>() {
+                (Err(None), steps)
+            } else {
+                let msg = LAST_PANIC.with(|p| p.borrow_mut().take()).unwrap_or_else(|| "?".into());
+                (Err(Some(msg)), steps)
+            }
+        }
+    }
+}
+
 #[derive(Clone, Debug)]
 pub struct ModelAns {
     /// None = unknown (model ran out of fuel)
@@ -176,52 +214,26 @@ impl<'w> Model<'w> {
         }
         let spec = &self.world.regexes[reidx as usize];
         let fuel = self.world.knobs.fuel.saturating_mul(10);
-        let ctx = sched::cur_ctx();
-        let (saved_armed, saved_model) = match &ctx {
-            Some(c) => (c.armed.get(), c.model.get()),
-            None => (false, false),
-        };
-        let mut steps = 0;
         let text_static: &'static str = unsafe { &*(text as *const str) };
-        let r = {
-            if let Some(c) = sched::cur_ctx() {
-                c.armed.set(false);
-                c.model.set(true);
-                c.model_steps.set(0);
-                c.model_fuel.set(fuel);
-            }
-            let r = catch_unwind(AssertUnwindSafe(|| {
-                IN_OP.with(|c| c.set(true));
-                let re = match compile(spec) {
-                    Ok(re) => re,
-                    Err(e) => return Err(e),
-                };
-                let mut it = open_iter(&re, spec, text_static, cursor);
-                let m = it.next();
-                drop(it);
-                Ok(m)
-            }));
-            IN_OP.with(|c| c.set(false));
-            if let Some(c) = sched::cur_ctx() {
-                steps = c.model_steps.get();
-                c.model.set(saved_model);
-                c.armed.set(saved_armed);
-            }
-            r
-        };
+        let (r, steps) = model_mode(fuel, || {
+            let re = match compile(spec) {
+                Ok(re) => re,
+                Err(e) => return Err(e),
+            };
+            let mut it = open_iter(&re, spec, text_static, cursor);
+            let m = it.next();
+            drop(it);
+            Ok(m)
+        });
         let ans = match r {
             Ok(Ok(Some(m))) => ModelAns { outcome: Some(fmt_match(&m)), range: Some((m.start(), m.end())) },
             Ok(Ok(None)) => ModelAns { outcome: Some("None".into()), range: None },
             Ok(Err(e)) => ModelAns { outcome: Some(format!("NoRegex({})", e)), range: None },
-            Err(p) => {
-                if p.is::<SimCancel>() {
-                    self.stats.lock().unwrap().out_of_fuel += 1;
-                    ModelAns { outcome: None, range: None }
-                } else {
-                    let msg = LAST_PANIC.with(|p| p.borrow_mut().take()).unwrap_or_else(|| "?".into());
-                    ModelAns { outcome: Some(format!("Panicked({})", msg)), range: None }
-                }
+            Err(None) => {
+                self.stats.lock().unwrap().out_of_fuel += 1;
+                ModelAns { outcome: None, range: None }
             }
+            Err(Some(msg)) => ModelAns { outcome: Some(format!("Panicked({})", msg)), range: None },
         };
         {
             let mut st = self.stats.lock().unwrap();
@@ -230,6 +242,33 @@ impl<'w> Model<'w> {
         }
         self.memo.lock().unwrap().insert(key, ans.clone());
         ans
+    }
+
+    /// The k-th (1-based) result of a brand-new iterator opened at `start` on a private
+    /// copy of the text with a freshly compiled Regex. Used only to attribute a mismatch:
+    /// if a fresh iterator agrees with the unfold of FIRST but the observed iterator does
+    /// not, the observed result depended on history or buffer identity (C19), not on the
+    /// iteration rule (C09).
+    pub fn fresh_kth(&self, reidx: u32, text: &str, start: usize, k: u32) -> Option<String> {
+        let spec = &self.world.regexes[reidx as usize];
+        let fuel = self.world.knobs.fuel.saturating_mul(10).saturating_mul(k.max(1) as u64);
+        let copy: String = text.to_string();
+        let text_static: &'static str = unsafe { &*(copy.as_str() as *const str) };
+        let (r, _) = model_mode(fuel, || {
+            let re = compile(spec).ok()?;
+            let mut it = open_iter(&re, spec, text_static, start);
+            let mut last = None;
+            for _ in 0..k {
+                last = Some(it.next());
+            }
+            drop(it);
+            last
+        });
+        match r {
+            Ok(Some(Some(m))) => Some(fmt_match(&m)),
+            Ok(Some(None)) => Some("None".into()),
+            _ => None,
+        }
     }
 }
 
@@ -263,6 +302,7 @@ pub struct IterModel {
 
 #[derive(Clone, Debug)]
 pub struct C09Viol {
+    pub property: &'static str,
     pub pass: u8,
     pub thread: usize,
     pub op: usize,
@@ -278,6 +318,18 @@ pub enum NextOut {
 }
 
 impl IterModel {
+    /// Attribute a "next!=first(cursor)" mismatch (see Model::fresh_kth).
+    pub fn attribute(&self, model: &Model, clause: &'static str, expected: &str) -> (&'static str, &'static str) {
+        if clause != "next!=first(cursor)" || self.features & F_RESUME != 0 {
+            return ("C09", clause);
+        }
+        let exp = expected;
+        match model.fresh_kth(self.reidx, &self.text, self.start, self.nexts) {
+            Some(f) if f == exp => ("C19", "iterator-result-depends-on-history"),
+            _ => ("C09", clause),
+        }
+    }
+
     pub fn new(reidx: u32, spec: &RegexSpec, hay: u32, ascii: bool, text: &str, start: usize) -> IterModel {
         let mut features = 0;
         if start == text.len() {
@@ -326,7 +378,7 @@ impl IterModel {
     }
 
     /// Check one observed `next()` result against the model and advance the model.
-    pub fn step(&mut self, model: &Model, obs: &NextOut, unknown: &mut u64) -> Option<(&'static str, String, String)> {
+    pub fn step(&mut self, model: &Model, obs: &NextOut, unknown: &mut u64) -> Option<(&'static str, &'static str, String, String)> {
         self.nexts += 1;
         let len = self.text.len();
         let obs_s = match obs {
@@ -335,7 +387,7 @@ impl IterModel {
             NextOut::Panicked(p) => format!("Panicked({})", p),
         };
         self.hist.str(&obs_s);
-        let mut viol: Option<(&'static str, String, String)> = None;
+        let mut viol: Option<(&'static str, &'static str, String, String)> = None;
 
         // expectation
         let cursor_before = self.cursor;
@@ -359,7 +411,8 @@ impl IterModel {
                     } else {
                         "next!=first(cursor)"
                     };
-                    viol = Some((clause, format!("{} [cursor={:?}]", e, self.cursor), obs_s.clone()));
+                    let (property, clause) = if matches!(obs, NextOut::Panicked(_)) { ("C09", clause) } else { self.attribute(model, clause, e) };
+                    viol = Some((property, clause, format!("{} [cursor={:?}]", e, self.cursor), obs_s.clone()));
                 }
             }
         }
@@ -396,7 +449,7 @@ impl IterModel {
                 }
                 if viol.is_none() {
                     if let Some((c, exp)) = bad {
-                        viol = Some((c, exp, obs_s.clone()));
+                        viol = Some(("C09", c, exp, obs_s.clone()));
                     }
                 }
                 if s == e {
@@ -460,6 +513,7 @@ pub struct ClientStats {
     pub model_unknown: u64,
     pub compile_ops: u64,
     pub compile_errs: u64,
+    pub bursts: u64,
     /// finished iterator histories: (history hash, features, nexts)
     pub iter_histories: Vec<(u64, u32, u32)>,
     pub range_observation_failures: u64,
@@ -529,10 +583,11 @@ enum Armed {
     Next(u32),
     Drain(u32),
     Find(Arc<Regex>, u32, &'static str),
-    Replace(Arc<Regex>, &'static str, String, bool),
+    Replace(Arc<Regex>, u32, &'static str, String, bool),
     Nested(Arc<Regex>, u32, &'static str, Arc<Regex>, u32),
     Compile(u32, &'static str),
     CloneRe(Arc<Regex>),
+    Burst(Arc<Regex>, u32, &'static str, u32),
 }
 
 enum ArmedOut {
@@ -804,7 +859,7 @@ impl<'a> Client<'a> {
                         self.rec(format!("NoRegex({})", e), 0, Fault::None);
                         return;
                     }
-                    Ok((rx, _, _)) => Armed::Replace(rx, self.sh.bufs[hay as usize].text(), tpl.clone(), *all),
+                    Ok((rx, reidx, _)) => Armed::Replace(rx, reidx, self.sh.bufs[hay as usize].text(), tpl.clone(), *all),
                 }
             }
             OpKind::ReplaceNested { re, hay, inner } => {
@@ -821,12 +876,22 @@ impl<'a> Client<'a> {
                 let hay = *hay % nhay;
                 Armed::Compile(*re % world.regexes.len() as u32, self.sh.bufs[hay as usize].text())
             }
+            OpKind::Burst { re, hay, n } => {
+                let hay = *hay % nhay;
+                match self.resolve(*re) {
+                    Err(e) => {
+                        self.rec(format!("NoRegex({})", e), 0, Fault::None);
+                        return;
+                    }
+                    Ok((rx, reidx, _)) => Armed::Burst(rx, reidx, self.sh.bufs[hay as usize].text(), *n),
+                }
+            }
         };
 
         // which shared object is being searched (for in-flight statistics)
         let obj = match (&armed, &op.kind) {
             (Armed::Next(h), _) | (Armed::Drain(h), _) => self.handles[*h as usize].as_ref().map(|x| x.obj).unwrap_or(NO_OBJ),
-            (_, OpKind::Find { re, .. }) | (_, OpKind::Replace { re, .. }) | (_, OpKind::ReplaceNested { re, .. }) => match re {
+            (_, OpKind::Find { re, .. }) | (_, OpKind::Replace { re, .. }) | (_, OpKind::ReplaceNested { re, .. }) | (_, OpKind::Burst { re, .. }) => match re {
                 ReRef::Shared(i) if self.sh.kind != PassKind::Fresh => *i % world.regexes.len() as u32,
                 ReRef::Clone(c) if self.sh.kind != PassKind::Fresh => 1000 + (self.tid as u32) * 16 + c,
                 _ => NO_OBJ,
@@ -897,8 +962,8 @@ impl<'a> Client<'a> {
                             let mut unk = 0;
                             let v = hd.model.step(self.sh.model, &NextOut::Panicked(outcome.clone()), &mut unk);
                             self.stats.model_unknown += unk;
-                            if let Some((clause, exp, obs)) = v {
-                                self.c09.push(C09Viol { pass: self.sh.pass_no, thread: self.tid, op: i, clause, expected: exp, observed: obs });
+                            if let Some((property, clause, exp, obs)) = v {
+                                self.c09.push(C09Viol { property, pass: self.sh.pass_no, thread: self.tid, op: i, clause, expected: exp, observed: obs });
                             }
                         }
                         hd.dead = true;
@@ -933,8 +998,8 @@ impl<'a> Client<'a> {
                     let mut unk = 0;
                     let v = hd.model.step(self.sh.model, &obs, &mut unk);
                     self.stats.model_unknown += unk;
-                    if let Some((clause, exp, obs)) = v {
-                        self.c09.push(C09Viol { pass: self.sh.pass_no, thread: self.tid, op: i, clause, expected: exp, observed: obs });
+                    if let Some((property, clause, exp, obs)) = v {
+                        self.c09.push(C09Viol { property, pass: self.sh.pass_no, thread: self.tid, op: i, clause, expected: exp, observed: obs });
                     }
                     self.rec(outcome, steps, Fault::None);
                 }
@@ -964,8 +1029,8 @@ impl<'a> Client<'a> {
                         outcome.push_str("...]");
                     }
                     self.stats.model_unknown += unk;
-                    if let Some((clause, exp, obs)) = first_v {
-                        self.c09.push(C09Viol { pass: self.sh.pass_no, thread: self.tid, op: i, clause, expected: exp, observed: obs });
+                    if let Some((property, clause, exp, obs)) = first_v {
+                        self.c09.push(C09Viol { property, pass: self.sh.pass_no, thread: self.tid, op: i, clause, expected: exp, observed: obs });
                     }
                     self.rec(outcome, steps, Fault::None);
                 }
@@ -981,11 +1046,77 @@ impl<'a> Client<'a> {
                     }
                     self.rec("Cloned".into(), steps, Fault::None);
                 }
-                (ArmedOut::Text(s), _) => {
+                (ArmedOut::Text(s), armed) => {
+                    if s.starts_with("BurstDiffers") {
+                        self.c09.push(C09Viol {
+                            property: "C19",
+                            pass: self.sh.pass_no,
+                            thread: self.tid,
+                            op: i,
+                            clause: "repeated-search-result-changes",
+                            expected: "every repetition of the same search on the same Regex gives the first result".into(),
+                            observed: s.clone(),
+                        });
+                    }
+                    // Reference-pass self check: the same one-shot op on a private copy of the
+                    // haystack (fresh address) with freshly compiled Regex objects must give the
+                    // same answer; otherwise the result depended on history or buffer identity.
+                    if self.sh.kind == PassKind::Fresh {
+                        if let Some(shadow) = self.shadow_oneshot(&armed) {
+                            if shadow != s {
+                                self.c09.push(C09Viol {
+                                    property: "C19",
+                                    pass: self.sh.pass_no,
+                                    thread: self.tid,
+                                    op: i,
+                                    clause: "isolated-rerun-differs",
+                                    expected: shadow,
+                                    observed: s.clone(),
+                                });
+                            }
+                        }
+                    }
                     self.rec(s, steps, Fault::None);
                 }
                 _ => unreachable!("armed/out mismatch"),
             },
+        }
+    }
+
+    /// Re-run a one-shot op in model mode on a private copy of its haystack with freshly
+    /// compiled Regex objects. None if not applicable or the rerun ran out of fuel.
+    fn shadow_oneshot(&mut self, a: &Armed) -> Option<String> {
+        let fuel = self.sh.world.knobs.fuel.saturating_mul(10);
+        let copy: String;
+        let fresh = |me: &Self, reidx: u32| compile(me.spec(reidx)).ok().map(Arc::new);
+        let sh_armed = match a {
+            Armed::Find(_, reidx, text) => {
+                copy = text.to_string();
+                Armed::Find(fresh(self, *reidx)?, *reidx, unsafe { &*(copy.as_str() as *const str) })
+            }
+            Armed::Replace(_, reidx, text, tpl, all) => {
+                copy = text.to_string();
+                Armed::Replace(fresh(self, *reidx)?, *reidx, unsafe { &*(copy.as_str() as *const str) }, tpl.clone(), *all)
+            }
+            Armed::Nested(_, reidx, text, _, iidx) => {
+                copy = text.to_string();
+                Armed::Nested(fresh(self, *reidx)?, *reidx, unsafe { &*(copy.as_str() as *const str) }, fresh(self, *iidx)?, *iidx)
+            }
+            Armed::Compile(reidx, text) => {
+                copy = text.to_string();
+                Armed::Compile(*reidx, unsafe { &*(copy.as_str() as *const str) })
+            }
+            _ => return None,
+        };
+        let saved = (self.stats.nested, self.stats.compile_ops, self.stats.compile_errs);
+        let (r, _) = model_mode(fuel, || self.armed_part(&sh_armed));
+        self.stats.nested = saved.0;
+        self.stats.compile_ops = saved.1;
+        self.stats.compile_errs = saved.2;
+        drop(sh_armed);
+        match r {
+            Ok(ArmedOut::Text(t)) => Some(t),
+            _ => None,
         }
     }
 
@@ -1028,7 +1159,7 @@ impl<'a> Client<'a> {
                     None => "None".into(),
                 })
             }
-            Armed::Replace(rx, text, tpl, all) => {
+            Armed::Replace(rx, _reidx, text, tpl, all) => {
                 let s = if *all { rx.replace_all(text, tpl) } else { rx.replace(text, tpl) };
                 ArmedOut::Text(format!("Str({:?})", s))
             }
@@ -1051,6 +1182,35 @@ impl<'a> Client<'a> {
                 });
                 self.stats.nested += 1;
                 ArmedOut::Text(format!("Str({:?})", s))
+            }
+            Armed::Burst(rx, reidx, text, n) => {
+                let spec = self.spec(*reidx);
+                let mut first: Option<String> = None;
+                let mut out = None;
+                for k in 0..*n {
+                    if let Some(c) = sched::cur_ctx() {
+                        // fuel is per search, not per burst
+                        if !c.model.get() {
+                            c.op_steps.set(0);
+                        }
+                    }
+                    let m = open_iter(rx, spec, text, 0).next();
+                    let s = match m {
+                        Some(m) => fmt_match(&m),
+                        None => "None".into(),
+                    };
+                    match &first {
+                        None => first = Some(s),
+                        Some(f) => {
+                            if *f != s {
+                                out = Some(format!("BurstDiffers(n={};call 0: {};call {}: {})", n, f, k, s));
+                                break;
+                            }
+                        }
+                    }
+                }
+                self.stats.bursts += 1;
+                ArmedOut::Text(out.unwrap_or_else(|| format!("Burst(n={};all=={})", n, first.unwrap_or_default())))
             }
             Armed::Compile(reidx, text) => {
                 let spec = self.spec(*reidx);
@@ -1096,6 +1256,7 @@ impl ClientStats {
         self.model_unknown += o.model_unknown;
         self.compile_ops += o.compile_ops;
         self.compile_errs += o.compile_errs;
+        self.bursts += o.bursts;
         self.range_observation_failures += o.range_observation_failures;
         self.iter_histories.extend(o.iter_histories.iter().cloned());
     }
@@ -1357,7 +1518,7 @@ pub fn execute(world: &World, explicit: Option<&[Segment]>) -> Exec {
     for p in [&p1, &p2, &p3] {
         for v in &p.c09 {
             viols.push(Violation {
-                property: "C09",
+                property: v.property,
                 clause: v.clause.to_string(),
                 pass: v.pass,
                 thread: v.thread,
